@@ -168,6 +168,8 @@ def _error_exits(b):
 # sensitivity pack (thorough tier)
 _IU = 'src/index/updater/inscription_updater.rs'
 MUTANTS = [
+  {'name': 'seeded-C06-a', 'patch': 'C06-a/patch.diff', 'expect': ('R6.1', 'index_inscriptions', 'carried inscription')},
+
   {'name': 'reinscription asked for the pre-pointer offset', 'file': _IU,
    'old': '        let offset = inscription\n          .payload\n          .pointer()\n          .filter(|&pointer| pointer < total_output_value)\n          .unwrap_or(offset);\n',
    'new': '        let reinscription = inscribed_offsets.contains_key(&offset);\n        let offset = inscription\n          .payload\n          .pointer()\n          .filter(|&pointer| pointer < total_output_value)\n          .unwrap_or(offset);\n',
